@@ -299,6 +299,7 @@ def rule_chebyshev_bounds(ck, units, which=('cheb', 'sib')):
     if 'sib' in which:
         ck.rule('radius-siblings', 'the diagonal scaling statements of the serial and the distributed spectral-radius kernels (Gershgorin and power branch) are the same code', 1)
     done = set()
+    sa_done = set()
     if 'cheb' not in which:
         done.add('cheb')
     if 'sib' not in which:
@@ -329,6 +330,19 @@ def rule_chebyshev_bounds(ck, units, which=('cheb', 'sib')):
                     elif pol != scaled:
                         dets.append('spectral_radius<%s> at %s is used on the prm.scale == %s path' % ('true' if scaled else 'false', f.where(c), 'true' if pol else 'false'))
                 ck.ob('cheb-scale-consistent', 'amgcl::relaxation::chebyshev::ctor', f.where(), not dets, '; '.join(dets[:2]))
+        # smoothed aggregation damps with omega / rho(D^-1 A_F): its estimate is always the one of the diagonally scaled operator
+        if 'cheb' in which or 'sa' in which:
+            for f in u.funcs:
+                if f.cls in ('amgcl::coarsening::smoothed_aggregation', 'amgcl::mpi::coarsening::smoothed_aggregation') and f.body is not None and (f.cls, 'sa') not in sa_done:
+                    f2 = inline.expand(f, inline.same_class_helper())
+                    calls = [c for c in f2.calls('amgcl::backend::spectral_radius')]
+                    if not calls:
+                        continue
+                    sa_done.add((f.cls, 'sa'))
+                    bad = [c for c in calls if 'spectral_radius<true' not in ((u.by_id.get(c.get('fd')).full) if u.by_id.get(c.get('fd')) is not None else '')]
+                    ck.rule('sa-radius-scaled', 'smoothed aggregation: the spectral radius that scales the damping of (I - omega D^-1 A_F) is estimated for the diagonally scaled operator (spectral_radius<true>)', 1)
+                    ck.ob('sa-radius-scaled', f.cls, f2.where(calls[0]), not bad, '' if not bad else
+                          'spectral_radius<false> at %s: the damping omega / rho is applied to D^-1 A_F, the radius is that of A - the prolongation depends on the scaling of the matrix' % f2.where(bad[0]))
         ser = [f for f in u.funcs if f.q == 'amgcl::backend::spectral_radius' and f.params and 'distributed_matrix' not in u.type(f.decl(f.params[0]).get('ct')) and 'spectral_radius<true' in f.full]
         dis = [f for f in u.funcs if f.q == 'amgcl::backend::spectral_radius' and f.params and 'distributed_matrix' in u.type(f.decl(f.params[0]).get('ct')) and 'spectral_radius<true' in f.full]
         # the two branches may live in helper functions of the same file (namespace detail)
